@@ -301,12 +301,21 @@ func c15Run(c *c15Case, res *c15Result) {
 	}()
 
 	if c.Sizes != nil {
+		// what ReadChunk returned is kept as returned until every chunk has been read (a caller that collects a batch and
+		// encodes it afterwards): a later call must not change an earlier result
+		held := map[int]*serviceinfo.KV{}
+		defer func() {
+			for i, kv := range held {
+				res.Reads[i] = gen.Hex([]byte(kv.Key)) + "=" + gen.Hex(kv.Val)
+			}
+		}()
 		for _, size := range c.Sizes {
 			jit()
 			kv, err := r.ReadChunk(uint16(size))
 			switch {
 			case err == nil:
-				res.Reads = append(res.Reads, gen.Hex([]byte(kv.Key))+"="+gen.Hex(kv.Val))
+				held[len(res.Reads)] = kv
+				res.Reads = append(res.Reads, "")
 				if int(kv.Size()) > size && res.ReadViol == "" {
 					res.ReadViol = fmt.Sprintf("ReadChunk(%d) returned a KV of Size %d (key %d bytes, value %d bytes)", size, kv.Size(), len(kv.Key), len(kv.Val))
 				}
@@ -491,6 +500,23 @@ func c15Oracle(c *c15Case, res *c15Result) []c15Finding {
 	if c.Sizes != nil {
 		if res.ReadViol != "" {
 			add("chunk-over-budget", "%s", res.ReadViol)
+		}
+		// the value bytes handed out, in order, are the bytes that were written, in order (read after all reads are done)
+		var want, got []byte
+		for _, st := range c.Script {
+			if !st.Yield {
+				want = append(want, st.Body...)
+			}
+		}
+		for _, rd := range res.Reads {
+			if _, v, ok := strings.Cut(rd, "="); ok {
+				if b, err := hex.DecodeString(v); err == nil {
+					got = append(got, b...)
+				}
+			}
+		}
+		if !bytes.HasPrefix(want, got) {
+			add("read-bytes-differ", "the values returned by ReadChunk, concatenated, are not a prefix of what was written (%d bytes read, %d written): an earlier result changed after it was returned, or bytes were lost", len(got), len(want))
 		}
 		return out
 	}
